@@ -71,7 +71,62 @@ func checkC23(c *Ctx) (string, []string) {
 
 	c.Rule("C23.pipeline", "γ_a' is stored only after, in this order, the submission-window check, the attempt check and the proof check of the block's tickets, the order and duplicate checks of the new ticket identifiers, a sort by identifier of (new ⌢ carried-over) tickets, a duplicate check of the merged list and truncation to one epoch; each check's error is returned as is", 10)
 	type step struct{ name, arg string }
-	steps := []step{{"VerifyEpochTail", ext}, {"VerifyTicketsAttempt", ext}, {"VerifyTicketsProof", "p0 ‖ " + ext}, {"VerifyTicketsOrder", nt}, {"VerifyTicketsDuplicate", nt}, {"VerifyTicketsDuplicate", acc}}
+	steps := []step{{"VerifyEpochTail", ext}, {"VerifyTicketsAttempt", ext}, {"VerifyTicketsProof", "p0 ‖ " + ext}, {"VerifyTicketsOrder", nt}, {"VerifyTicketsDuplicate", nt}, {"VerifyTicketsDuplicate", "MERGED"}}
+	// the merged list and everything that denotes it later (reloads of the local it is kept in, reslices, phis)
+	var mergeV ssa.Value
+	allInstrs(create, func(in ssa.Instruction) {
+		if call, ok := in.(*ssa.Call); ok {
+			if b, ok := call.Call.Value.(*ssa.Builtin); ok && b.Name() == "append" && len(call.Call.Args) == 2 {
+				if abbr(exprStr(call.Call.Args[0], shapeOpts)) == nt && abbr(exprStr(call.Call.Args[1], shapeOpts)) == S+"GetPreviousTicketsAccumulator()" {
+					mergeV = call
+				}
+			}
+		}
+	})
+	lineage := map[ssa.Value]bool{}
+	if mergeV != nil {
+		lineage[mergeV] = true
+		for changed := true; changed; {
+			changed = false
+			mark := func(v ssa.Value) {
+				if !lineage[v] {
+					lineage[v] = true
+					changed = true
+				}
+			}
+			allInstrs(create, func(in ssa.Instruction) {
+				switch x := in.(type) {
+				case *ssa.UnOp:
+					if a, ok := x.X.(*ssa.Alloc); ok && x.Op == token.MUL {
+						for _, r := range *a.Referrers() {
+							if st, ok := r.(*ssa.Store); ok && st.Addr == ssa.Value(a) && lineage[st.Val] {
+								mark(x)
+							}
+						}
+					}
+				case *ssa.Slice:
+					if lineage[x.X] {
+						mark(x)
+					}
+				case *ssa.Phi:
+					for _, e := range x.Edges {
+						if lineage[e] {
+							mark(x)
+						}
+					}
+				case *ssa.MakeInterface:
+					if lineage[x.X] {
+						mark(x)
+					}
+				case *ssa.ChangeType:
+					if lineage[x.X] {
+						mark(x)
+					}
+				}
+			})
+		}
+	}
+	_ = acc
 	var setCall ssa.Instruction
 	allInstrs(create, func(in ssa.Instruction) {
 		if ci, ok := in.(ssa.CallInstruction); ok && ci.Common().IsInvoke() == false {
@@ -93,7 +148,11 @@ func checkC23(c *Ctx) (string, []string) {
 				}
 				var as []string
 				for _, a := range cl.Call.Args {
-					as = append(as, abbr(exprStr(a, shapeOpts)))
+					if lineage[a] {
+						as = append(as, "MERGED")
+					} else {
+						as = append(as, abbr(exprStr(a, shapeOpts)))
+					}
 				}
 				if strings.Join(as, " ‖ ") == st.arg {
 					call = cl
@@ -137,102 +196,113 @@ func checkC23(c *Ctx) (string, []string) {
 			prevCall = call
 		}
 		// merged list, sort and truncation
-		var mergeOK, sortOK bool
+		c.Check(mergeV != nil, "C23.pipeline", S+"CreateNewTicketAccumulator · merge", create.Pos(), "merged list = new tickets ⌢ carried-over accumulator", "the merged list is not (new tickets ⌢ GetPreviousTicketsAccumulator())")
+		var sortCall, dup2 *ssa.Call
 		allInstrs(create, func(in ssa.Instruction) {
-			if st, ok := in.(*ssa.Store); ok && abbr(exprStr(st.Addr, shapeOpts)) == "alloc:types.TicketsAccumulator" {
-				if abbr(exprStr(st.Val, shapeOpts)) == "append("+nt+", "+S+"GetPreviousTicketsAccumulator())" {
-					mergeOK = true
-				}
+			cl, ok := in.(*ssa.Call)
+			if !ok || calleeFunc(cl) == nil || len(cl.Call.Args) == 0 {
+				return
 			}
-		})
-		c.Check(mergeOK, "C23.pipeline", S+"CreateNewTicketAccumulator · merge", create.Pos(), "merged list = new tickets ⌢ carried-over accumulator", "the merged list is not (new tickets ⌢ GetPreviousTicketsAccumulator())")
-		if fd, p := c.FuncDecl(safPkg, "CreateNewTicketAccumulator"); fd != nil {
-			sortOK = sortsByIDBefore(p, fd)
-		}
-		// the sort call lies between the merge and the second duplicate check
-		var sortCall, dup2 ssa.Instruction
-		allInstrs(create, func(in ssa.Instruction) {
-			if cl, ok := in.(*ssa.Call); ok && calleeFunc(cl) != nil {
-				if calleeFunc(cl).String() == "sort.Slice" {
-					sortCall = in
-				}
-				if calleeFunc(cl).Name() == "VerifyTicketsDuplicate" && abbr(exprStr(cl.Call.Args[0], shapeOpts)) == acc {
-					dup2 = in
-				}
+			if fld, ok := byteOrderSort(cl); ok && fld == "ID" && lineage[cl.Call.Args[0]] {
+				sortCall = cl
+			}
+			if calleeFunc(cl).Name() == "VerifyTicketsDuplicate" && lineage[cl.Call.Args[0]] {
+				dup2 = cl
 			}
 		})
 		between := sortCall != nil && dup2 != nil && sortCall.Block().Dominates(dup2.Block())
-		c.Check(sortOK && between, "C23.pipeline", S+"CreateNewTicketAccumulator · sort", create.Pos(), "merged list sorted by ticket identifier bytes before the merged duplicate check", "the merged list is not sorted by bytes.Compare(ID) < 0 before it is checked and stored")
-		over := condEdges(create, func(v ssa.Value) (bool, bool) {
-			return abbr(exprStr(v, shapeOpts)) == "(types.EpochLength < len("+acc+"))", true
-		})
-		truncOK := false
+		c.Check(between, "C23.pipeline", S+"CreateNewTicketAccumulator · sort", create.Pos(), "merged list sorted by ticket identifier bytes before the merged duplicate check", "the merged list is not sorted ascending by the bytes of ID before it is checked and stored")
+		// truncation: the stored list is the merged one, cut to its first E entries whenever it is longer
+		var cut *ssa.Slice
 		allInstrs(create, func(in ssa.Instruction) {
-			if st, ok := in.(*ssa.Store); ok && abbr(exprStr(st.Addr, shapeOpts)) == "alloc:types.TicketsAccumulator" {
-				if abbr(exprStr(st.Val, shapeOpts)) == acc+"[:types.EpochLength]" && guardedBy(create, st, over) {
-					truncOK = true
-				}
+			if sl, ok := in.(*ssa.Slice); ok && lineage[sl.X] && sl.Low == nil && sl.High != nil {
+				cut = sl
 			}
 		})
-		// every path from the merged duplicate check to the store passes the length test
-		if truncOK && dup2 != nil {
-			_, skip := findPath(pathQuery{start: dup2, target: func(in ssa.Instruction) bool { return in == setCall },
-				blocker: func(in ssa.Instruction) bool { return in == over[0].from.Instrs[len(over[0].from.Instrs)-1] }})
-			truncOK = !skip
+		stored := false
+		if ci, ok := setCall.(ssa.CallInstruction); ok {
+			args := ci.Common().Args
+			stored = len(args) > 0 && lineage[args[len(args)-1]]
 		}
-		c.Check(truncOK, "C23.pipeline", S+"CreateNewTicketAccumulator · truncation", create.Pos(), "longer than one epoch ⇒ cut to the first E (lowest) identifiers, on every path to the store", "the merged accumulator can be stored with more than E entries or is not cut to its lowest E identifiers")
-		c.requireCall("C23.pipeline", S+"CreateNewTicketAccumulator", create, "SetGammaA", []string{"POST ‖ " + acc})
+		bad := ""
+		if cut == nil || !stored {
+			bad = fmt.Sprintf("no cut of the merged list reaches the store (cut found=%v, stored value is the merged list=%v)", cut != nil, stored)
+		} else {
+			const E = 12
+			lenAtom := "len(" + abbr(exprStr(cut.X, robustOpts)) + ")"
+			for _, n := range []int64{E - 1, E, E + 1, E + 5} {
+				av := func(s string) (int64, bool) {
+					switch {
+					case s == lenAtom || (strings.HasPrefix(s, "len(") && lineageRender(s)):
+						return n, true
+					case s == "types.EpochLength":
+						return E, true
+					}
+					return 0, false
+				}
+				if n > E && reachAvoiding(setCall, cut, robustOpts, av) {
+					bad = fmt.Sprintf("with %d merged tickets (E=%d) the accumulator can be stored without being cut", n, E)
+					break
+				}
+				env := intEnv{params: map[ssa.Value]int64{}, lens: map[ssa.Value]int64{cut.X: n}, unknown: map[ssa.Value]bool{}, cells: map[ssa.Value]int64{}, globals: map[string]int64{"EpochLength": E}}
+				env.opaque = func(v ssa.Value) (int64, bool) {
+					if isIntegerT(v.Type()) {
+						if _, isC := v.(*ssa.Const); !isC {
+							return av(abbr(exprStr(v, robustOpts)))
+						}
+					}
+					return 0, false
+				}
+				h, ok := evalInt(cut.High, env, 0)
+				some, _ := reachFromEntry(cut, robustOpts, av)
+				if some && (!ok || h != min(n, E)) {
+					bad = fmt.Sprintf("with %d merged tickets (E=%d) the list is cut to %d entries (evaluable=%v); GP 6.34 keeps the lowest min(n, E) = %d", n, E, h, ok, min(n, int64(E)))
+					break
+				}
+			}
+		}
+		c.Check(bad == "", "C23.pipeline", S+"CreateNewTicketAccumulator · truncation", create.Pos(), "longer than one epoch ⇒ cut to the first E (lowest) identifiers, on every path to the store", "the merged accumulator can be stored with more than E entries or is not cut to its lowest E identifiers: "+bad)
+		c.Check(mustCallOnEveryPath(create, "SetGammaA"), "C23.pipeline", S+"CreateNewTicketAccumulator · SetGammaA on every path", create.Pos(), "no non-error return is reachable without the store", "a path returns without calling SetGammaA: the component keeps a stale value")
 	}
 
 	c.Rule("C23.comparisons", "the checks reject exactly: identifier[i−1] > identifier[i] (order), identifier[i−1] = identifier[i] (duplicate), attempt ≥ N (attempt), more than V tickets inside the submission window or any ticket after it (window); the carried-over accumulator is dropped exactly when e' > e", 6)
-	chk := func(f *ssa.Function, callee string, wantCond string, needPrevCur bool) {
-		var call *ssa.Call
-		allInstrs(f, func(in ssa.Instruction) {
-			if cl, ok := in.(*ssa.Call); ok && calleeFunc(cl) != nil && calleeFunc(cl).String() == callee {
-				call = cl
-			}
-		})
-		okAdj := call != nil
-		if call != nil {
-			pc, ok := adjacentArgs(call)
-			okAdj = ok && (pc || !needPrevCur)
-		}
-		conds := abbrAll(condShapes(f))
-		has := false
-		for _, s := range conds {
-			if s == wantCond {
-				has = true
-			}
-		}
-		// the error return is on the passing edge of the condition
-		e := condEdges(f, func(v ssa.Value) (bool, bool) { return abbr(exprStr(v, shapeOpts)) == wantCond, true })
-		okErr := len(e) == 1
-		allInstrs(f, func(in ssa.Instruction) {
-			if r, ok := in.(*ssa.Return); ok {
+	c23Adjacent(c, order, "order", func(cmp int64) bool { return cmp > 0 })
+	c23Adjacent(c, dup, "duplicate", func(cmp int64) bool { return cmp == 0 })
+	c.requireAtoms("C23.comparisons", S+"VerifyTicketsAttempt", att, robustOpts, []string{"(p0[*].Attempt < u64(types.TicketsPerValidator))"})
+	{
+		const Y, V = 10, 6
+		bad := ""
+		for _, m := range []int64{Y - 1, Y, Y + 1} {
+			for _, n := range []int64{0, 1, V, V + 1} {
+				r, ok := runWithAtoms(tail, robustOpts, func(s string) (int64, bool) {
+					switch {
+					case s == S+"GetSlotIndex(post.GetTau(POST))":
+						return m, true
+					case s == "len(p0)":
+						return n, true
+					case s == "types.SlotSubmissionEnd":
+						return Y, true
+					case s == "types.ValidatorsCount":
+						return V, true
+					}
+					return 0, false
+				}, nil)
+				if !ok || len(r.Results) != 1 {
+					bad = "the window check depends on something other than (slot index, number of tickets, Y, V)"
+					break
+				}
 				isErr := abbr(exprStr(r.Results[0], shapeOpts)) != "nil"
-				if isErr != guardedBy(f, r, e) {
-					okErr = false
+				want := (m < Y && n > V) || (m >= Y && n > 0)
+				if isErr != want {
+					bad = fmt.Sprintf("with slot index %d (Y=%d) and %d tickets (V=%d) the extrinsic is rejected=%v; GP 6.30 rejects=%v", m, Y, n, V, isErr, want)
+					break
 				}
 			}
-		})
-		c.Check(okAdj && has && okErr, "C23.comparisons", funcKey(f), f.Pos(), "rejects iff "+wantCond+" on adjacent elements (i−1, i)", fmt.Sprintf("conditions %v; adjacent (i−1,i)=%v; error iff condition=%v", conds, okAdj, okErr))
-	}
-	chk(order, "bytes.Compare", "(0 < bytes.Compare(&p0[*].ID[:], &p0[*].ID[:]))", true)
-	chk(dup, "bytes.Equal", "bytes.Equal(&p0[*].ID[:], &p0[*].ID[:])", false)
-	c.checkCondSet("C23.comparisons", S+"VerifyTicketsAttempt", att, []string{"(* < len(p0))", "(u64(types.TicketsPerValidator) <= p0[*].Attempt)"})
-	c.checkCondSet("C23.comparisons", S+"VerifyEpochTail", tail, []string{"(0 != len(p0))", "(" + S + "GetSlotIndex(post.GetTau(POST)) < u32(types.SlotSubmissionEnd))", "(types.ValidatorsCount < len(p0))"})
-	{
-		inWin := condEdges(tail, func(v ssa.Value) (bool, bool) {
-			return abbr(exprStr(v, shapeOpts)) == "("+S+"GetSlotIndex(post.GetTau(POST)) < u32(types.SlotSubmissionEnd))", true
-		})
-		tooMany := condEdges(tail, func(v ssa.Value) (bool, bool) {
-			return abbr(exprStr(v, shapeOpts)) == "(types.ValidatorsCount < len(p0))", true
-		})
-		any := condEdges(tail, func(v ssa.Value) (bool, bool) { return abbr(exprStr(v, shapeOpts)) == "(0 != len(p0))", true })
-		ok := len(inWin) == 1 && len(tooMany) == 1 && len(any) == 1 &&
-			guardedBy(tail, tooMany[0].from.Instrs[len(tooMany[0].from.Instrs)-1], inWin) &&
-			!guardedBy(tail, any[0].from.Instrs[len(any[0].from.Instrs)-1], inWin)
-		c.Check(ok, "C23.comparisons", S+"VerifyEpochTail · arms", tail.Pos(), "count limit inside the window, emptiness after it", "the window test does not select between the count limit and the emptiness requirement")
+			if bad != "" {
+				break
+			}
+		}
+		c.Check(bad == "", "C23.comparisons", S+"VerifyEpochTail · arms", tail.Pos(), "count limit V inside the submission window, emptiness after it (12/12 rows)", "the window test does not select between the count limit and the emptiness requirement: "+bad)
 	}
 	c.checkCondSet("C23.comparisons", S+"GetPreviousTicketsAccumulator", prev, []string{"(" + S + "GetEpochIndex(prior.GetTau(PRIOR)) < " + S + "GetEpochIndex(post.GetTau(POST)))"})
 	{
@@ -251,39 +321,65 @@ func checkC23(c *Ctx) (string, []string) {
 		c.Check(ok, "C23.comparisons", S+"GetPreviousTicketsAccumulator · reset arm", prev.Pos(), "empty accumulator iff e' > e, prior γ_a otherwise", "the reset arm is not selected by e' > e")
 	}
 
-	c.Rule("C23.sealer-sequence", "γ_s' (6.24): the outside-in ordering of the prior accumulator exactly when e' = e+1 ∧ m ≥ Y ∧ |γ_a| = E; the prior sequence when e' = e; otherwise the fallback F(η'_2, κ'); the outside-in sequencer alternates from the two ends; the caller passes (e, e', m) of the prior and posterior slots", 5)
-	c.checkCondSet("C23.sealer-sequence", S+"UpdateSlotKeySequence", usk, []string{"((1 + p0) == p1)", "(types.EpochLength == len(*cell(prior.GetGammaA(PRIOR))))", "(types.SlotSubmissionEnd <= int(p2))", "(p0 == p1)"})
+	c.Rule("C23.sealer-sequence", "γ_s' (6.24): the outside-in ordering of the prior accumulator exactly when e' = e+1 ∧ m ≥ Y ∧ |γ_a| = E; the prior sequence when e' = e; otherwise the fallback F(η'_2, κ'); the outside-in sequencer alternates from the two ends; the caller passes (e, e', m) of the prior and posterior slots", 4)
 	{
-		e1 := condEdges(usk, func(v ssa.Value) (bool, bool) { return abbr(exprStr(v, shapeOpts)) == "((1 + p0) == p1)", true })
-		full := condEdges(usk, func(v ssa.Value) (bool, bool) {
-			return abbr(exprStr(v, shapeOpts)) == "(types.EpochLength == len(*cell(prior.GetGammaA(PRIOR))))", true
-		})
-		late := condEdges(usk, func(v ssa.Value) (bool, bool) {
-			return abbr(exprStr(v, shapeOpts)) == "(types.SlotSubmissionEnd <= int(p2))", true
-		})
-		same := condEdges(usk, func(v ssa.Value) (bool, bool) { return abbr(exprStr(v, shapeOpts)) == "(p0 == p1)", true })
-		var zCall, fCall, gsCall ssa.Instruction
-		allInstrs(usk, func(in ssa.Instruction) {
-			if cl, ok := in.(ssa.CallInstruction); ok && calleeFunc(cl) != nil {
-				switch calleeFunc(cl).Name() {
-				case "OutsideInSequencer":
-					zCall = in
-				case "FallbackKeySequence":
-					fCall = in
-				case "GetGammaS":
-					gsCall = in
+		const E, Y = 12, 10
+		bad := ""
+		rows := 0
+		for _, ee := range [][2]int64{{5, 5}, {5, 6}, {5, 7}, {5, 4}} {
+			for _, ga := range []int64{E - 1, E} {
+				for _, m := range []int64{Y - 1, Y} {
+					var ran []string
+					_, ok := runWithAtoms(usk, robustOpts, func(s string) (int64, bool) {
+						switch {
+						case s == "p0":
+							return ee[0], true
+						case s == "p1":
+							return ee[1], true
+						case s == "p2":
+							return m, true
+						case strings.HasPrefix(s, "len(") && strings.Contains(s, "GetGammaA("):
+							return ga, true
+						case s == "types.EpochLength":
+							return E, true
+						case s == "types.SlotSubmissionEnd":
+							return Y, true
+						}
+						return 0, false
+					}, func(in ssa.Instruction) {
+						if ci, ok := in.(ssa.CallInstruction); ok && calleeFunc(ci) != nil {
+							switch n := calleeFunc(ci).Name(); n {
+							case "OutsideInSequencer", "FallbackKeySequence", "GetGammaS":
+								ran = append(ran, n)
+							}
+						}
+					})
+					rows++
+					if !ok {
+						bad = "the choice of γ_s' depends on something other than (e, e', m, |γ_a|, E, Y)"
+						break
+					}
+					want := "FallbackKeySequence"
+					switch {
+					case ee[1] == ee[0]+1 && m >= Y && ga == E:
+						want = "OutsideInSequencer"
+					case ee[1] == ee[0]:
+						want = "GetGammaS"
+					}
+					if len(ran) != 1 || ran[0] != want {
+						bad = fmt.Sprintf("with e=%d, e'=%d, m=%d (Y=%d), |γ_a|=%d (E=%d) the sequence comes from %v; GP 6.24 takes %s", ee[0], ee[1], m, Y, ga, E, ran, want)
+						break
+					}
+				}
+				if bad != "" {
+					break
 				}
 			}
-		})
-		ok := zCall != nil && fCall != nil && gsCall != nil && len(e1) == 1 && len(full) == 1 && len(late) == 1 && len(same) == 1
-		if ok {
-			ok = guardedBy(usk, zCall, e1) && guardedBy(usk, zCall, full) && guardedBy(usk, zCall, late) &&
-				guardedBy(usk, gsCall, same) && !guardedBy(usk, fCall, same) && !guardedBy(usk, fCall, e1)
-			// fallback is the arm where the same-epoch test failed
-			notSame := []edge{{same[0].from, 1 - same[0].succ}}
-			ok = ok && guardedBy(usk, fCall, notSame)
+			if bad != "" {
+				break
+			}
 		}
-		c.Check(ok, "C23.sealer-sequence", S+"UpdateSlotKeySequence · arms", usk.Pos(), "Z(γ_a) behind all three conjuncts; γ_s behind e'=e; F otherwise", "the ticket-based sequence is not guarded by e'=e+1 ∧ m≥Y ∧ |γ_a|=E, or the other arms are not selected as in GP 6.24")
+		c.Check(bad == "", "C23.sealer-sequence", S+"UpdateSlotKeySequence · arms", usk.Pos(), fmt.Sprintf("Z(γ_a) exactly when e'=e+1 ∧ m≥Y ∧ |γ_a|=E; γ_s when e'=e; F otherwise (%d rows)", rows), "the ticket-based sequence is not guarded by e'=e+1 ∧ m≥Y ∧ |γ_a|=E, or the other arms are not selected as in GP 6.24: "+bad)
 		fa := callArgShapes(usk, func(ci ssa.CallInstruction) bool {
 			return calleeFunc(ci) != nil && calleeFunc(ci).Name() == "FallbackKeySequence"
 		}, 0)
@@ -295,10 +391,67 @@ func checkC23(c *Ctx) (string, []string) {
 		}, 0)
 		c.Check(len(fa) == 1 && abbr(fa[0]) == "cell(post.GetEta(POST))[2]" && len(fb) == 1 && abbr(fb[0]) == "post.GetKappa(POST)" && len(za) == 1 && abbr(za[0]) == "cell(prior.GetGammaA(PRIOR))", "C23.sealer-sequence", S+"UpdateSlotKeySequence · operands", usk.Pos(), "Z(prior γ_a), F(η'_2, κ')", fmt.Sprintf("operands: Z(%v), F(%v, %v)", za, fa, fb))
 	}
-	c.checkEffects("C23.sealer-sequence", S+"OutsideInSequencer", oi, abbrAll(effectShapesOpt(oi, nil, true)), []string{
-		"store &make([]types.TicketBody, types.EpochLength)[*] ← *p0[phi((types.EpochLength - 1) | phi((cyc - 1) | cyc))]",
-		"store &make([]types.TicketBody, types.EpochLength)[*] ← *p0[phi(0 | phi((1 + cyc) | cyc))]",
-	})
+	{
+		const E = 8
+		type mv struct{ dst, src int64 }
+		var moves []mv
+		evalOK := true
+		env := intEnv{params: map[ssa.Value]int64{}, lens: map[ssa.Value]int64{}, unknown: map[ssa.Value]bool{}, cells: map[ssa.Value]int64{}, globals: map[string]int64{"EpochLength": E}, closed: true}
+		env.watch = func(in ssa.Instruction, e intEnv) {
+			switch x := in.(type) {
+			case *ssa.MakeSlice:
+				if k, ok := evalInt(x.Len, e, 0); ok {
+					e.lens[x] = k
+				}
+			case *ssa.Store:
+				ia, ok := x.Addr.(*ssa.IndexAddr)
+				if !ok {
+					return
+				}
+				if _, isMk := ia.X.(*ssa.MakeSlice); !isMk {
+					return
+				}
+				ld, ok := x.Val.(*ssa.UnOp)
+				if !ok {
+					evalOK = false
+					return
+				}
+				sa, ok := ld.X.(*ssa.IndexAddr)
+				if !ok {
+					evalOK = false
+					return
+				}
+				d, ok1 := evalInt(ia.Index, e, 0)
+				s, ok2 := evalInt(sa.Index, e, 0)
+				if !ok1 || !ok2 {
+					evalOK = false
+					return
+				}
+				moves = append(moves, mv{d, s})
+			}
+		}
+		fuel := 6000
+		env.fuel = &fuel
+		last := walkBlocks(oi.Blocks[0], nil, env, func(*ssa.BasicBlock) bool { return false })
+		bad := ""
+		if last == nil || !evalOK {
+			bad = "the sequencer is not a pure index permutation of its input (evaluation stops)"
+		} else if len(moves) != E {
+			bad = fmt.Sprintf("the sequencer fills %d of %d positions", len(moves), E)
+		} else {
+			for _, m := range moves {
+				want := m.dst / 2
+				if m.dst%2 == 1 {
+					want = E - 1 - m.dst/2
+				}
+				if m.src != want {
+					bad = fmt.Sprintf("position %d takes ticket %d; the outside-in order (GP 6.25) takes ticket %d", m.dst, m.src, want)
+					break
+				}
+			}
+		}
+		c.Check(bad == "", "C23.sealer-sequence", S+"OutsideInSequencer · order", oi.Pos(), fmt.Sprintf("out[i] = t[i/2] for even i, t[E−1−i/2] for odd i (all %d positions, E=%d)", E, E), bad)
+	}
 	// caller provenance (the call sits in a closure: resolve captured variables to what the enclosing function stored in them)
 	var got []string
 	for _, fn := range withClosures(outer) {
@@ -478,4 +631,155 @@ func sortsWholeBefore(p *packages.Package, fd *ast.FuncDecl) bool {
 		return true
 	})
 	return found
+}
+
+// lineageRender: the rendering denotes the merged ticket list (new tickets ⌢ carried-over accumulator) or a reload of it.
+func lineageRender(s string) bool {
+	return strings.Contains(s, "GetPreviousTicketsAccumulator()") || strings.Contains(s, "alloc:types.TicketsAccumulator")
+}
+
+// c23Adjacent: VerifyTicketsOrder / VerifyTicketsDuplicate reject exactly on the
+// stated outcome of comparing the identifiers of adjacent tickets (i−1, i).
+// Two forms: a loop over adjacent pairs (decided as a table over the
+// comparison outcome), or slices.IsSortedFunc with a byte comparator on ID (order only).
+func c23Adjacent(c *Ctx, f *ssa.Function, what string, rejects func(cmp int64) bool) {
+	key := funcKey(f)
+	o := robustOpts
+	// form B
+	var sortedCall *ssa.Call
+	allInstrs(f, func(in ssa.Instruction) {
+		if call, ok := in.(*ssa.Call); ok && call.Call.StaticCallee() != nil {
+			n := call.Call.StaticCallee().String()
+			if call.Call.StaticCallee().Origin() != nil {
+				n = call.Call.StaticCallee().Origin().String()
+			}
+			if n == "slices.IsSortedFunc" && len(call.Call.Args) == 2 && call.Call.Args[0] == ssa.Value(f.Params[0]) {
+				sortedCall = call
+			}
+		}
+	})
+	if sortedCall != nil && what == "order" {
+		var cmp *ssa.Function
+		switch x := stripConv(sortedCall.Call.Args[1]).(type) {
+		case *ssa.MakeClosure:
+			cmp, _ = x.Fn.(*ssa.Function)
+		case *ssa.Function:
+			cmp = x
+		}
+		okCmp := false
+		if cmp != nil {
+			rs := abbrMap(returnShapesO(cmp, o))["ret"]
+			okCmp = len(rs) == 1 && strings.NewReplacer("&cell(p0)", "p0", "&cell(p1)", "p1", "cell(p0)", "p0", "cell(p1)", "p1").Replace(rs[0]) == "bytes.Compare(p0.ID[:], p1.ID[:])"
+		}
+		bad := ""
+		for v := int64(0); v <= 1; v++ {
+			r, ok := runWithAtoms(f, o, func(s string) (int64, bool) {
+				if strings.HasPrefix(s, "slices.IsSortedFunc(") {
+					return v, true
+				}
+				return 0, false
+			}, nil)
+			if !ok || len(r.Results) != 1 {
+				bad = "the verdict depends on something other than the sortedness test"
+				break
+			}
+			if isErr := abbr(exprStr(r.Results[0], shapeOpts)) != "nil"; isErr != (v == 0) {
+				bad = fmt.Sprintf("sorted=%d gives rejected=%v", v, isErr)
+			}
+		}
+		c.Check(okCmp && bad == "", "C23.comparisons", key, f.Pos(), "rejects exactly when the identifiers are not in non-decreasing byte order (slices.IsSortedFunc with bytes.Compare on ID)", "order check: comparator on ID bytes="+fmt.Sprint(okCmp)+" "+bad)
+		return
+	}
+	// form A: loop over adjacent pairs
+	var errRet *ssa.Return
+	allInstrs(f, func(in ssa.Instruction) {
+		if r, ok := in.(*ssa.Return); ok && len(r.Results) == 1 && abbr(exprStr(r.Results[0], shapeOpts)) != "nil" {
+			errRet = r
+		}
+	})
+	// the comparison: bytes.Compare / bytes.Equal (possibly inside a comparator helper) on the ID of two elements
+	var cmpCall *ssa.Call
+	var cmpSubst map[ssa.Value]string
+	visitWithHelpers(f, o, func(g *ssa.Function, subst map[ssa.Value]string, in ssa.Instruction) {
+		if call, ok := in.(*ssa.Call); ok && call.Call.StaticCallee() != nil {
+			switch call.Call.StaticCallee().String() {
+			case "bytes.Compare", "bytes.Equal":
+				cmpCall, cmpSubst = call, subst
+			}
+		}
+	})
+	if errRet == nil || cmpCall == nil {
+		c.Bad("C23.comparisons", key, f.Pos(), "no adjacent-pair comparison of ticket identifiers leading to a rejection was found")
+		return
+	}
+	a0 := abbr(exprStrSubst(cmpCall.Call.Args[0], o, cmpSubst))
+	a1 := abbr(exprStrSubst(cmpCall.Call.Args[1], o, cmpSubst))
+	okOperands := strings.HasSuffix(a0, ".ID[:]") && strings.HasSuffix(a1, ".ID[:]") && strings.Contains(a0, "p0[") && strings.Contains(a1, "p0[")
+	// adjacency (i−1, i): the two element indices differ by one, previous first
+	okAdj := false
+	allInstrs(f, func(in ssa.Instruction) {
+		call, ok := in.(*ssa.Call)
+		if !ok {
+			return
+		}
+		var idx []ssa.Value
+		var collect func(v ssa.Value, d int)
+		collect = func(v ssa.Value, d int) {
+			if d > 8 {
+				return
+			}
+			switch x := v.(type) {
+			case *ssa.Slice:
+				collect(x.X, d+1)
+			case *ssa.FieldAddr:
+				collect(x.X, d+1)
+			case *ssa.UnOp:
+				collect(x.X, d+1)
+			case *ssa.Field:
+				collect(x.X, d+1)
+			case *ssa.Alloc:
+				if sv := singleStore(x); sv != nil {
+					collect(sv, d+1)
+				}
+			case *ssa.IndexAddr:
+				if x.X == ssa.Value(f.Params[0]) {
+					idx = append(idx, x.Index)
+				}
+			}
+		}
+		for _, a := range call.Call.Args {
+			collect(a, 0)
+		}
+		if len(idx) == 2 {
+			if b, ok := stripConv(idx[0]).(*ssa.BinOp); ok && b.Op == token.SUB && stripConv(b.X) == stripConv(idx[1]) {
+				if k, ok := constInt(b.Y); ok && k == 1 {
+					okAdj = true
+				}
+			}
+		}
+	})
+	bad := ""
+	for _, v := range []int64{-1, 0, 1} {
+		reached, ok := iterReaches(errRet, o, nil, func(s string) (int64, bool) {
+			switch {
+			case strings.HasPrefix(s, "bytes.Compare("):
+				return v, true
+			case strings.HasPrefix(s, "bytes.Equal("):
+				if v == 0 {
+					return 1, true
+				}
+				return 0, true
+			}
+			return 0, false
+		})
+		if !ok {
+			bad = "the rejection depends on something other than the comparison of the two identifiers"
+			break
+		}
+		if reached != rejects(v) {
+			bad = fmt.Sprintf("compare(id[i−1], id[i]) = %d gives rejected=%v", v, reached)
+			break
+		}
+	}
+	c.Check(okOperands && okAdj && bad == "", "C23.comparisons", key, f.Pos(), "rejects exactly on the stated outcome of comparing the identifiers of adjacent tickets (i−1, i) (3/3 rows)", fmt.Sprintf("%s check: operands are ticket IDs=%v (%s, %s); adjacent (i−1,i)=%v; %s", what, okOperands, a0, a1, okAdj, bad))
 }
